@@ -69,8 +69,8 @@ def casegen(rnd):
             prog.append(["meth", i + 1, rnd.choice(["to_bits", "to_bits", "assert_positive"]), (None if w == cfg["n"] else w), 0, []])
         return dict(cfg=cfg, prog=prog, ins=[v], kind="bits-seq", widths=ws, value=v)
     # to_bits(k) / from_bits round trip at a width independent of the global bitlength
-    w = rnd.choice([1, 2, 3, 5, cfg["n"], cfg["n"] + 1, 12])
-    v = rnd.choice([0, 1, 2 ** w - 1, 2 ** w, 2 ** w + 1, -1, rnd.randrange(0, 2 ** w), rnd.randrange(0, 2 ** w)])
+    w = rnd.choice([1, 2, 3, 5, cfg["n"], cfg["n"] + 1, 12] + ([66, 80] if p > 2 ** 100 else []))      # widths beyond 64 on the real fields
+    v = rnd.choice([0, 1, 2 ** w - 1, 2 ** w, 2 ** w + 1, -1, rnd.randrange(0, 2 ** w), rnd.randrange(0, 2 ** w), 2 ** (w - 1) + 5 if w > 4 else 1])
     prog = [["input", 0, "priv", 0], ["meth", 1, "to_bits", (None if w == cfg["n"] else w), 0, []], ["meth", 2, "from_bits", None, 1, []]]
     if rnd.random() < 0.5: prog.append(["meth", 3, "assert_positive", (None if w == cfg["n"] else w), 0, []])
     return dict(cfg=cfg, prog=prog, ins=[v], kind="bits", width=w, value=v)
